@@ -15,7 +15,7 @@ CLAIM = dict(
 HARNESS = ["c10_pipes_a", "c10_pipes_b", "c10_pipes_c"]
 TARGETS_QUICK = [("c10_pipes_a", "asan"), ("c10_pipes_b", "asan"), ("c10_pipes_c", "asan")]
 
-VALUE_MODULES = ["c03", "c04", "c05", "c06", "c07", "c08", "c16", "c17"]
+from ..integrated import VALUE as VALUE_MODULES
 
 
 def value_modules():
